@@ -32,7 +32,7 @@ def constructor_class(fx, path):
     R = roles.roles(fx)
     if path in (R['G1'].get('get_generator'), R['G2'].get('get_generator')):
         return 'generator-constant'
-    if any(R[g].get('get_point_from_x') and path.startswith(R[g]['get_point_from_x'] + '::{closure') for g in ('G1', 'G2')):
+    if any(R[g].get('get_point_from_x') and (path == R[g]['get_point_from_x'] or path.startswith(R[g]['get_point_from_x'] + '::{closure')) for g in ('G1', 'G2')):
         return 'on-curve-candidate'
     if tr == 'EncodedPoint' and nm == 'into_affine_unchecked':
         return 'unchecked-decoder'
